@@ -29,3 +29,47 @@ package didsubject
 //@   ensures [from-local-storage-for-exactly-this-did] isNilIface(result.2) ==> isNilIface(ret(call (*SqlDIDDocumentManager).Latest #1).1) && same(arg(call (*SqlDIDDocumentManager).Latest #1, 1), id)
 //@        && arg(call NewDIDDocumentManager #1, 0) == r.DB
 //@   ensures [deactivated-only-when-allowed] isNilIface(result.2) && ret(call resolver.IsDeactivated #1) == true ==> metadata != nil && metadata.AllowDeactivated && result.1 != nil && result.1.Deactivated
+
+// ---- C13 (guard structure only): one subject operation changes all its DID documents or none ----
+// What is decided: the SHAPE of transactionHelper - documents and change records are written in one
+// database transaction; the method managers are asked to commit only after that transaction succeeded,
+// each with the change of its own method, stopping at the first failure; a second transaction then
+// deletes EVERY document version of this operation when a commit failed, or the change records when all
+// succeeded; a database error has priority, a commit failure is reported. What SQL does with these
+// statements (cascades, isolation, crash recovery) is the database's and is NOT modelled.
+//@ func (MethodManager).Commit
+//@   trusted
+//@   benign
+//@ func (MethodManager).IsCommitted
+//@   trusted
+//@   benign
+
+// tx1: the operation's error aborts the transaction; every change record is saved in this transaction.
+//@ func (*SqlManager).transactionHelper$1
+//@   prop C13
+//@   call (*gorm.DB).Save #1 requires [change-records-in-the-same-transaction-after-the-operation] arg(0) == tx && isNilIface(ret(call operation #1).1) && arg(call operation #1, 0) == tx
+//@   ensures [operation-failure-aborts] did(call operation #1) && !isNilIface(ret(call operation #1).1) ==> !isNilIface(result)
+//@   ensures [a-record-that-cannot-be-saved-aborts] did(call (*gorm.DB).Save #1) && !isNilIface(ret(call (*gorm.DB).Save #1).Error) ==> !isNilIface(result)
+//@   ensures [success-means-every-record-was-saved] isNilIface(result) ==> did(call operation #1) && $done1
+
+// tx2: after a failed commit every document version of this operation is deleted; otherwise the change records.
+//@ func (*SqlManager).transactionHelper$2
+//@   prop C13
+//@   call (*gorm.DB).Delete #1 requires [versions-deleted-only-after-a-failed-commit] !isNilIface(errManager) && arg(0) == ret(call (*gorm.DB).Where #1) && arg(call (*gorm.DB).Where #1, 0) == tx
+//@        && arg(call (*gorm.DB).Where #1, 1) == any("id = ?") && len(arg(call (*gorm.DB).Where #1, 2)) == 1 && arg(call (*gorm.DB).Where #1, 2)[0] == any(change.DIDDocumentVersionID)
+//@        && typeOf(arg(1)) == *orm.DidDocument
+//@   call (*gorm.DB).Delete #2 requires [change-records-deleted-only-after-all-commits-succeeded] isNilIface(errManager) && arg(0) == ret(call (*gorm.DB).Where #2) && arg(call (*gorm.DB).Where #2, 0) == tx
+//@        && arg(call (*gorm.DB).Where #2, 1) == any("transaction_id = ?") && len(arg(call (*gorm.DB).Where #2, 2)) == 1 && arg(call (*gorm.DB).Where #2, 2)[0] == any(change.TransactionID)
+//@        && typeOf(arg(1)) == *orm.DIDChangeLog
+//@   ensures [after-a-failed-commit-every-version-is-deleted] isNilIface(result) && !isNilIface(errManager) ==> $done1
+//@   ensures [a-failed-delete-is-reported] did(call (*gorm.DB).Delete #1) && !isNilIface(ret(call (*gorm.DB).Delete #1).Error) ==> !isNilIface(result)
+
+//@ func (*SqlManager).transactionHelper
+//@   prop C13
+//@   call (MethodManager).Commit #1 requires [commit-only-after-the-documents-were-written-with-the-methods-own-change] isNilIface(ret(call (*gorm.DB).Transaction #1))
+//@        && arg(0) == manager && method in changes && same(arg(2), changes[method])
+//@   call (*gorm.DB).Transaction #2 requires [cleanup-always-follows-the-commits] isNilIface(ret(call (*gorm.DB).Transaction #1)) && arg(0) == r.DB
+//@   ensures [first-transaction-failure-is-final] !isNilIface(ret(call (*gorm.DB).Transaction #1)) ==> result == ret(call (*gorm.DB).Transaction #1) && !did(call (MethodManager).Commit #1) && !did(call (*gorm.DB).Transaction #2)
+//@   ensures [success-means-written-committed-and-cleaned-up] isNilIface(result) ==> isNilIface(ret(call (*gorm.DB).Transaction #1)) && did(call (*gorm.DB).Transaction #2) && isNilIface(ret(call (*gorm.DB).Transaction #2))
+//@        && (!did(call (MethodManager).Commit #1) || isNilIface(ret(call (MethodManager).Commit #1)))
+//@   ensures [a-failed-commit-is-reported] did(call (MethodManager).Commit #1) && !isNilIface(ret(call (MethodManager).Commit #1)) ==> !isNilIface(result)
